@@ -49,7 +49,7 @@ def find(job, o, rec, work):
     exe = build_oracle(work)
     rec['native_search'] = []
     for kind, args in kinds:
-        rc, out, err, s = sh([exe, 'search', kind, '7', '3000000'] + args, timeout=400)
+        rc, out, err, s = sh([exe, 'search', kind, '6', '6000000'] + args, timeout=400)
         line = [l for l in out.split('\n') if l.startswith('FOUND') or l.startswith('NOTFOUND')]
         rec['native_search'].append(dict(kind=kind, args=args, result=(line[-1] if line else 'error: ' + err[-200:]), seconds=round(s, 1)))
         if line and line[-1].startswith('FOUND'):
